@@ -9,11 +9,20 @@
 # $(B)/asan/repo/{core,fitter,cinter}/%.o); nothing is defined twice here.
 HIST_WRAPS := fopen64 fopen remove unlink rename access fileno ftruncate64 ftruncate realloc ffrprt cholmod_l_start
 
+# The repository's C++ objects are linked as copies in which the references to operator new / new[]
+# (_Znwm, _Znam) are renamed to psv_hook_Znwm / psv_hook_Znam (defined in harness/psv_hist_c18.inc):
+# the simulator can then refuse exactly one request of the *library's* code inside a C call (allocation
+# failure of the default allocator) without ever touching its own or the harness's allocations, and
+# without replacing the global operator new (ASan's new/delete checks stay on).
+$(B)/asan/repo-nf/%.o: $(B)/asan/repo/%.o
+	@mkdir -p $(dir $@)
+	objcopy --redefine-sym _Znwm=psv_hook_Znwm --redefine-sym _Znam=psv_hook_Znam $< $@
+
 HIST_OBJS := $(B)/asan/sim/harness.o $(B)/asan/sim/simdisk.o $(B)/asan/sim/fitscodec.o $(B)/asan/sim/tablegen.o \
   $(B)/asan/harness/psv_hist.o \
-  $(addprefix $(B)/asan/repo/core/,$(addsuffix .o,$(CORE_SRC))) \
+  $(addprefix $(B)/asan/repo-nf/core/,$(addsuffix .o,$(CORE_SRC))) \
   $(addprefix $(B)/asan/repo/fitter/,$(addsuffix .o,$(FITTER_SRC))) \
-  $(B)/asan/repo/cinter/splinetable.o
+  $(B)/asan/repo-nf/cinter/splinetable.o
 
 $(B)/asan/harness/psv_hist.o: CXXFLAGS += -Wno-volatile-register-var
 # the history harness is one translation unit split over include files
